@@ -66,13 +66,13 @@ Theorem C12_refusals_are_inexpressible : forall v t x,
 Proof. exact enc_err_inexpressible. Qed.
 Print Assumptions C12_refusals_are_inexpressible.
 
-(* a deep and wide instance: depth 5, a map of tuples of UDTs of lists, with nulls *)
+(* a deep and wide instance: depth 6, a map of tuples of UDTs of lists, with nulls *)
 Definition c12_type : cqltype :=
   TMap (TScalar SVarchar) (TTuple [TScalar SInt; TUdt ["a"%string; "b"%string] [TList (TSet (TScalar SVarint)); TScalar SDuration]; TScalar SDate]).
 Definition c12_value : cval :=
   VMap [(VBytes [97], VTuple [VInt (-1); VUdt [VList [VList [VInt 128; VInt (-129)]; VNull]; VDuration 1 (-1) 256000]; VNull])].
 Example C12_all_types_nonvacuous :
-  wf_type c12_type = true /\ wt c12_type c12_value = true /\ tdepth c12_type = 5%nat /\
+  wf_type c12_type = true /\ wt c12_type c12_value = true /\ tdepth c12_type = 6%nat /\
   (exists r, spec_val 4 c12_type c12_value = Some (Some r)) /\ (exists r, spec_val 2 (TList (TScalar SInt)) (VList [VInt 7]) = Some (Some r)).
 Proof. vm_compute. repeat split; eexists; reflexivity. Qed.
 
